@@ -20,6 +20,21 @@ def _mu_below(rng, L):
     return L * _pick(rng, [0.1, 0.5, 0.01, 0.9, 0.3])
 
 
+def _L_or_inf(rng):
+    """documented limit value L = inf (no smoothness) in one draw out of eight"""
+    return INF if rng.random() < 0.125 else _L(rng)
+
+
+def _ssc_params(rng):
+    r = rng.random()
+    if r < 0.12:
+        return {"mu": _pick(rng, [0.1, 1.0, 0.5]), "L": INF}        # limit: strongly convex, not smooth
+    L = _L(rng)
+    if r < 0.2:
+        return {"mu": 0.0, "L": L}                                    # limit: smooth convex
+    return {"mu": _mu_below(rng, L), "L": L}
+
+
 CLASSES = {
     # name: (module kind, diff, param sampler)
     "ConvexFunction": ("function", False, lambda r: {}),
@@ -28,10 +43,10 @@ CLASSES = {
     "ConvexQGFunction": ("function", False, lambda r: {"L": _L(r)}),
     "ConvexSupportFunction": ("function", False, lambda r: {"M": _pick(r, [INF, 1.0, 2.0])}),
     "RsiEbFunction": ("function", False, lambda r: (lambda L: {"mu": _mu_below(r, L), "L": L})(_L(r))),
-    "SmoothConvexFunction": ("function", True, lambda r: {"L": _L(r)}),
+    "SmoothConvexFunction": ("function", True, lambda r: {"L": _L_or_inf(r)}),
     "SmoothConvexLipschitzFunction": ("function", True, lambda r: {"L": _L(r), "M": _pick(r, [1.0, 0.5, 3.0])}),
     "SmoothFunction": ("function", True, lambda r: {"L": _L(r)}),
-    "SmoothStronglyConvexFunction": ("function", True, lambda r: (lambda L: {"mu": _mu_below(r, L), "L": L})(_L(r))),
+    "SmoothStronglyConvexFunction": ("function", True, lambda r: _ssc_params(r)),
     "StronglyConvexFunction": ("function", False, lambda r: {"mu": _pick(r, [0.1, 1.0, 0.5])}),
     "SmoothStronglyConvexQuadraticFunction": ("function", True,
                                               lambda r: (lambda L: {"mu": _mu_below(r, L), "L": L})(_L(r))),
